@@ -16,7 +16,7 @@ CLAIMED = {
         design='DESIGN.md §6 C16',
         technique='Lean 4 proof (scan invariant, segment algebra over ordered fields) + bit-exact correspondence + exact-rational oracle'),
     "C17": dict(
-        text=("Kernel-checked theorems: binom_coeff's model on 64-bit arithmetic returns exactly C(n,k) for every k <= n with C(n,k) < 2^64 (invariant c = C(n,i), every split division exact, no intermediate overflow, the overflow guard provably never fires while the value fits), with symmetry and Pascal's rule, and any guard/overflow outcome implies C(n,k) >= 2^64; over R: logistic(-x) = 1 - logistic x, 0 < logistic < 1, strictly increasing, logit o logistic = id, logistic o logit = id on (0,1), logit defined exactly on [0,1]; softmax (max-shifted definition of the source): all exponent arguments <= 0, denominator >= 1, entries positive, sum 1, order preserving, = exp x_i / sum exp x_j, shift invariant; Box-Cox = (x^l - 1)/l (ln x at l = 0, the continuous extension) defined iff x > 0, shifted form iff x + shift > 0. Tied bit for bit to the Rust code (all (n,k), n <= 67, and the 64-bit threshold region up to n = 2^64-1 with outcome classes; stratified f32 grids for the transforms) with exact-integer and mpmath oracles; binom_coeff_alt is checked by the oracle only. Rounding of the transforms is checked, not proved."),
+        text=("Kernel-checked theorems: binom_coeff's model on 64-bit arithmetic returns exactly C(n,k) for every k <= n with C(n,k) < 2^64 (invariant c = C(n,i), every split division exact, no intermediate overflow, the overflow guard provably never fires while the value fits), with symmetry and Pascal's rule, and any guard/overflow outcome implies C(n,k) >= 2^64; over R: logistic(-x) = 1 - logistic x, 0 < logistic < 1, strictly increasing, logit o logistic = id, logistic o logit = id on (0,1), logit defined exactly on [0,1]; softmax (max-shifted definition of the source): all exponent arguments <= 0, denominator >= 1, entries positive, sum 1, order preserving, = exp x_i / sum exp x_j, shift invariant; Box-Cox = (x^l - 1)/l (ln x at l = 0, the continuous extension) defined iff x > 0, shifted form iff x + shift > 0. Tied bit for bit to the Rust code (all (n,k), n <= 67, and the 64-bit threshold region up to n = 2^64-1 with outcome classes; stratified f32 grids for the transforms) with exact-integer and mpmath oracles; binom_coeff_alt is checked by the oracle only. Float-level claims in the standard model with libm error u_f: every computed softmax entry is > 0 and |sum - 1| <= gamma_(n+1); logistic lies in (0,1] with relative error <= gamma_2 + gamma^f_1. Rounding of logit and Box-Cox is checked, not proved."),
         design='DESIGN.md §6 C17',
         technique='Lean 4 proof (Nat invariant with explicit u64 range checks, real analysis for logistic/softmax/Box-Cox) + bit-exact correspondence'),
     "C19": dict(
@@ -56,7 +56,7 @@ CLAIMED = {
         design='DESIGN.md §6 C11',
         technique='Lean 4 proof (column-loop invariant for P.A = L.U, Cholesky sweep invariant, cycle-shortening invariant for parity = Equiv.Perm.sign) + bit-exact correspondence + exact reconstruction oracle'),
     "C13": dict(
-        text=('Kernel-checked theorems over an ordered field: acovf/acf equal the biased-estimator sums, are even in the lag (for any scalar type), acf(0) = 1 for non-zero variance, |acf k| <= 1 (Cauchy-Schwarz), lags |k| >= n give 0; difference o cumsum; AR fit: intercept = mean and, given an exact inverse of the Toeplitz matrix, the coefficients satisfy the Yule-Walker equations; predict_one / predict equal mean + the AR recursion on the mean-centred history for every history length; fit and forecasts are shift-equivariant (series + c gives every forecast + c). With the proved solver correctness the Yule-Walker statement holds unconditionally for a non-singular Toeplitz matrix. Forecasts converge to the series mean whenever sum|phi_j| < 1 (explicit geometric bound) and whenever all roots of the characteristic polynomial lie inside the unit disc (Gelfand formula on the companion matrix; Props/C13Conv). PARTIAL: that a fit is stationary, and convergence of forecasts to the mean and rounding are decided by the bit-exact tie plus exact-integer / 240-bit mpmath oracles with a-priori rounding bounds, paired shifted runs and a horizon-1000 convergence check.'),
+        text=('Kernel-checked theorems over an ordered field: acovf/acf equal the biased-estimator sums, are even in the lag (for any scalar type), acf(0) = 1 for non-zero variance, |acf k| <= 1 (Cauchy-Schwarz), lags |k| >= n give 0; difference o cumsum; AR fit: intercept = mean and, given an exact inverse of the Toeplitz matrix, the coefficients satisfy the Yule-Walker equations; predict_one / predict equal mean + the AR recursion on the mean-centred history for every history length; fit and forecasts are shift-equivariant (series + c gives every forecast + c). With the proved solver correctness the Yule-Walker statement holds unconditionally for a non-singular Toeplitz matrix. Forecasts converge to the series mean whenever sum|phi_j| < 1 (explicit geometric bound) and whenever all roots of the characteristic polynomial lie inside the unit disc (Gelfand formula on the companion matrix; Props/C13Conv). Float-level (standard model): acovf error bound with a provably necessary first-order mean term for lag k > 0, |acf| <= 1 + gamma, |acf(0) - 1| <= gamma_4. PARTIAL: that a fit is stationary, and convergence of forecasts to the mean and rounding are decided by the bit-exact tie plus exact-integer / 240-bit mpmath oracles with a-priori rounding bounds, paired shifted runs and a horizon-1000 convergence check.'),
         design='DESIGN.md §6 C13',
         technique='Lean 4 proof (finite-sum algebra, Cauchy-Schwarz, recursion by induction over the horizon) + bit-exact correspondence'),
     "C14": dict(
@@ -71,7 +71,7 @@ CLAIMED = {
               "to call the kernel generated from its own operator token with arguments in order (self, other), the right shape source and (for matrix compound "
               "assignment) a shape assert, so each operator form computes the scalar op at each position with shape preserved; reductions in exact arithmetic: "
               "sum8 = sum, dot8 = sum of products, prod, norm = sqrt(sum x^2), max, inf_norm, logsumexp = log sum exp x_i and logmeanexp over R with all shifted "
-              "exponents <= 0 and 1 <= sum exp(x_i - m) <= n (no overflow at any magnitude); WORST-CASE ROUNDING BOUNDS in the standard model of floating-point arithmetic (trusted link: IEEE binary64 satisfies fl(a op b) = (a op b)(1+d), |d| <= 2^-53 barring overflow/underflow): |sum8 x - sum x| <= gamma_(n-1) sum|x|, dot within gamma_n sum|x_i y_i|, prod within gamma_n relative, norm within gamma_(n/2+2) relative, inf_norm within gamma_ncols relative, for the exact 8-way unrolled association. Tied bit for bit to the Rust code on all lengths 0..40 and random lengths "
+              "exponents <= 0 and 1 <= sum exp(x_i - m) <= n (no overflow at any magnitude); WORST-CASE ROUNDING BOUNDS in the standard model of floating-point arithmetic (trusted link: IEEE binary64 satisfies fl(a op b) = (a op b)(1+d), |d| <= 2^-53 barring overflow/underflow): |sum8 x - sum x| <= gamma_(n-1) sum|x|, dot within gamma_n sum|x_i y_i|, prod within gamma_n relative, norm within gamma_(n/2+2) relative, inf_norm within gamma_ncols relative, logsumexp / logmeanexp with an explicit bound in u, the libm error u_f and the spread max - min (data magnitude enters only through one final rounding), for the exact 8-way unrolled association. Tied bit for bit to the Rust code on all lengths 0..40 and random lengths "
               "to 1e4 for every form, map and special value; exact element-wise oracle and worst-case gamma_n-bound oracles for the reductions (rounding bounds are "
               "checked, not proved)."),
         design="DESIGN.md §6 C04",
@@ -81,7 +81,7 @@ CLAIMED = {
               "a value iff the inner dimensions agree, of length m*n, whose (i,j) entry is sum_k op(A)[i,k]*op(B)[k,j]; non-conformable or malformed "
               "operands give a panic; the blocked variant equals the plain one for every block size >= 1 (proved for every scalar type with only "
               "Add/Mul/Zero by projecting both loop nests onto one cell, so the k-order is identical and the Float instances coincide bit for bit for "
-              "the non-TT flags); xtx = X^T X and symmetric; the 16 Dot impls x 4 ownership forms are checked by `decide` over a wiring table regenerated "
+              "the non-TT flags); xtx = X^T X and symmetric; ROUNDING in the standard model: every entry of matmul / matmul_blocked / xtx / the Dot methods is within gamma_l sum_k|a_ik||b_kj| of the definition; the 16 Dot impls x 4 ownership forms are checked by `decide` over a wiring table regenerated "
               "from dot.rs on every run. The model is tied bit for bit to the Rust code on all shapes 1..9^3 x flags x block sizes (integer entries, exact "
               "equality oracle) and random real shapes to 64 (exact dyadic oracle with the rigorous l*2^-52*sum|a||b| bound)."),
         design="DESIGN.md §6 C05",
